@@ -9,3 +9,30 @@ NOT_CARRIED = ["POSIX semantics of os.path.*, os.remove and open() are assumed c
                "preserved by the deleters (they only remove); induction over the history is the meta-step",
                "an identifier file containing only white-space ends in sys.exit (no identifier returned): outside the stability clause",
                "uuid4 freshness, RHSM identity look-up"]
+
+
+def bounded(check):
+    """bounded stand-in / native witness search: the real marker / identifier functions over every short history"""
+    import json, os, subprocess
+    h = 3 if check.tier == "quick" else 4
+    here = os.path.dirname(os.path.dirname(os.path.abspath(__file__)))
+    p = subprocess.run(["/venv/bin/python", os.path.join(here, "bounded", "client_markers_histories.py"), check.repo.root, str(h)],
+                       stdout=subprocess.PIPE, stderr=subprocess.PIPE, universal_newlines=True, timeout=3000)
+    line = (p.stdout.strip().splitlines() or ["{}"])[-1]
+    try:
+        info = json.loads(line)
+    except ValueError:
+        info = {"error": (p.stderr or p.stdout)[-400:]}
+    out = dict(name="identifier canonical and stable, never rewritten by a read; markers never coexist; planted symlinks replaced, not followed",
+               level="bounded",
+               bound="every history of <= %d operations over 6 (read, forced regeneration, register, unregister, delete either marker) from 9 initial "
+                     "states (the state 'configuration directory absent' is the listed known finding and is not explored)" % h,
+               result=info, violation=(p.returncode == 1), error=(p.returncode not in (0, 1)))
+    if p.returncode == 1:
+        os.makedirs(os.path.join(here, "replays"), exist_ok=True)
+        path = os.path.join(here, "replays", "C17-bounded.json")
+        json.dump(dict(obligation="bounded:client-markers-histories", witness=info,
+                       replay_cmd="/venv/bin/python %s %s %d" % (os.path.join(here, "bounded", "client_markers_histories.py"), check.repo.root, h)),
+                  open(path, "w"), indent=1)
+        out["replay"] = path
+    return [out]
